@@ -32,7 +32,71 @@ func (d *protoDom) lenOf(st *sState, t *pt) int {
 }
 
 // cellsTerm: the byte string held by cells
+// rippleAdd: the cells are the result of adding a constant to a big-endian string byte by byte with a running carry:
+// from the last cell backwards, cell = lsb(V_k), V_k = byte(X, n-1-k) + C_k, C_0 a constant, C_k = V_(k-1) >> 8.
+// Returns be(trunc(val(X) + C_0, 8n), n).
+func rippleAdd(cells []sVal) (*pt, bool) {
+	n := len(cells)
+	if n < 2 {
+		return nil, false
+	}
+	var X *pt
+	var c0 *pt
+	var prevV *pt
+	for k := 0; k < n; k++ {
+		bc, ok := cells[n-1-k].(byteCell)
+		if !ok || bc.idx != 0 || bc.src.op != "lsb" {
+			return nil, false
+		}
+		V := bc.src.args[0]
+		if V.op != "add" || len(V.args) != 2 {
+			return nil, false
+		}
+		var bt, ct *pt
+		for i := 0; i < 2; i++ {
+			if V.args[i].op == "byte" {
+				bt, ct = V.args[i], V.args[1-i]
+			}
+		}
+		if bt == nil || bt.k != n-1-k {
+			return nil, false
+		}
+		if X == nil {
+			X = bt.args[0]
+		} else if bt.args[0].String() != X.String() {
+			return nil, false
+		}
+		if k == 0 {
+			if ct.op != "c" || !ct.n.IsInt64() || ct.n.Int64() < 0 || ct.n.Int64() > 255 {
+				return nil, false
+			}
+			c0 = ct
+		} else {
+			if ct.op != "shr" || ct.n == nil || ct.n.Int64() != 8 || ct.args[0].String() != prevV.String() {
+				return nil, false
+			}
+		}
+		prevV = V
+	}
+	if pLen(X) != n {
+		return nil, false
+	}
+	return pBe(&pt{op: "trunc", args: []*pt{pAdd(pVal(X), c0)}, k: 8 * n}, n), true
+}
+
 func cellsTerm(cells []sVal) (*pt, bool) {
+	if t, ok := rippleAdd(cells); ok {
+		return t, true
+	}
+	if osGetenv("SMGO_DEBUG_CELLS") != "" && len(cells) > 2 {
+		for i := len(cells) - 3; i < len(cells); i++ {
+			if bc, ok := cells[i].(byteCell); ok {
+				fmt.Printf("cell[%d] = byteCell{%s, %d}\n", i, bc.src, bc.idx)
+			} else {
+				fmt.Printf("cell[%d] = %T %v\n", i, cells[i], cells[i])
+			}
+		}
+	}
 	var parts []*pt
 	i := 0
 	for i < len(cells) {
@@ -694,7 +758,7 @@ func (d *protoDom) call(st *sState, call *ssa.Call, name string, args []sVal) (b
 		if x == nil || x.t == nil {
 			return fail("inversion of an unknown scalar")
 		}
-		d.setObj(st, args[0], &hProto{kind: "scalar", t: pOp("inv", x.t), set: true})
+		d.setObj(st, args[0], &hProto{kind: "scalar", t: pOp("inv", stripMod(x.t, "mod")), set: true}) // the inverse of a residue is the inverse of any of its representatives
 		set(args[0])
 		return true, nil
 	case "sm2/internal/fiat.(*SM2ScalarElement).ToBigInt", "sm2/internal/fiat.(*SM2Element).ToBigInt":
@@ -825,6 +889,12 @@ func flatCat(parts []*pt) *pt {
 func widthBound(n int) *pt {
 	if n == 32 {
 		return pSym("B256")
+	}
+	if n == 31 {
+		return pSym("B248")
+	}
+	if n > 32 && n <= 39 {
+		return pMul(pC(int64(1)<<uint(8*(n-32))), pSym("B256")) // 256^(n-32) * 2^256: linear in the symbol
 	}
 	return &pt{op: "c", n: new(big.Int).Lsh(big.NewInt(1), uint(8*n))}
 }
